@@ -62,6 +62,14 @@ def check_canonical(doc, obs):
                           % common.exc_mechanism(e), case, repr(e)[:300])
             return
         obs.count('canonical_identity_checked')
+        try:
+            out2 = tree.to_bytes()
+        except Exception as e:
+            out2 = repr(e)
+        if out2 != out:
+            obs.violation('second_serialisation_of_same_tree_differs', case,
+                          {'second': out2[:200]})
+            return
         if out != b:
             i = next((j for j in range(min(len(out), len(b)))
                       if out[j] != b[j]), min(len(out), len(b)))
@@ -107,6 +115,14 @@ def check_foreign(doc, st, data, layout, obs, tag):
     except Exception as e:
         obs.violation('foreign_reserialise_raised:%s:%s' % (
             tag, common.exc_mechanism(e)), case, repr(e)[:300])
+        return
+    try:
+        out2 = tree.to_bytes()
+    except Exception as e:
+        out2 = repr(e)
+    if out2 != out:
+        obs.violation('second_serialisation_of_same_tree_differs', case,
+                      {'second': out2[:200]})
         return
     got, exc, _ = common.read_records(out)
     if exc is not None:
